@@ -29,12 +29,18 @@ DIV_AFTER = [
     ('new call )', 'x = new F(a)'), ('keyword property', 'x = a.if'), ('nested grouping', 'x = ((a))'),
     ('comment before operand', 'x = /* c */ a'), ('comment before statement operand', 'foo(); /* c */ total'),
     ('line comment before operand', 'x = // c\n a'), ('call in nested function in header', 'if (g(function () { return f(a)'),
+    # the operand is the token that triggered an automatic semicolon (it is pushed back and re-read)
+    ('operand after an inserted semicolon', 'a = b\nc'), ('function expression } after an inserted semicolon', '(function () { return 1 }'),
+    ('operand after return + inserted semicolon', 'function g() { return\nc'),
 ]
-DIV_TAIL = {'call in header': ') z;', 'call in nested function in header': '; })) z;'}
+DIV_TAIL = {'call in header': ') z;', 'call in nested function in header': '; })) z;',
+            'function expression } after an inserted semicolon': ');', 'operand after return + inserted semicolon': '; }'}
+# regular expression literals whose first characters look like another token
+REGEX_LITERALS = ['/=/', '/=a/g', '/==/', '/[/]/', '/\\//', '/ x/', '/+/', '/-->/', '/./', '/(/', '/a*/', '/{/']
 LAYOUTS = ['', ' ', '\t', '  ', '\n', '\r\n', '\u2028', ' /*c*/ ', '/*c*/', ' // c\n', '\xa0', ' /*a\nb*/ ', '\x0b\ufeff']
 
 
-def classify(es5, asttypes, src):
+def classify(es5, asttypes, src, lit='/re/'):
     """-> ('regex'|'division'|'both'|'none', detail) or ('error', msg)"""
     try:
         t = es5.Parser().parse(src)
@@ -49,7 +55,7 @@ def classify(es5, asttypes, src):
             continue
         if not isinstance(n, asttypes.Node):
             continue
-        if type(n).__name__ == 'Regex' and n.value.startswith('/re/'):
+        if type(n).__name__ == 'Regex' and n.value.startswith(lit):
             regex += 1
         if type(n).__name__ == 'BinOp' and n.op == '/':
             div += 1
@@ -76,6 +82,20 @@ def bounded(run, tier):
                 why = 'after %s (%r) with layout %r the `/` must start a regular expression: %r gives %s %s' % (label, before, lay, src, got, detail)
                 run.failed('rt.slash.regex', 'E4/bounded', '%s | layout=%r' % (label, lay), dict(source=src, problem=why), observed=why,
                            required='regex after headers, statement blocks, operators and keywords, whatever the layout', replayed=True)
+    for label, before in REGEX_AFTER:
+        for lay in ('', ' ', '\n'):
+            if label in NO_LINE_BREAK and lay == '\n':
+                continue
+            for lit in REGEX_LITERALS:
+                src = before + lay + lit + '.test(y)' + REGEX_TAIL.get(label, ';')
+                n += 1
+                got, detail = classify(es5, asttypes, src, lit)
+                if got != 'regex':
+                    why = 'after %s (%r) with layout %r, %s must be read as one regular expression literal: %r gives %s %s' % (
+                        label, before, lay, lit, src, got, detail)
+                    run.failed('rt.slash.regex', 'E4/bounded', '%s | layout=%r | %s' % (label, lay, lit), dict(source=src, problem=why),
+                               observed=why, required='a regular expression literal wherever a division is not permitted, whatever '
+                               'its body starts with (ES5 7.8.5)', replayed=True)
     for label, before in DIV_AFTER:
         for lay in LAYOUTS:
             if lay.endswith('\n') and label in ('postfix ++', 'postfix --'):
@@ -110,6 +130,9 @@ def main(run, tier):
                        '(_get_update_token, _set_tokens, backtracked_token), the re-lex branch of Parser.p_error path-complete with '
                        'externals; the classification of a `/` itself against the statement\'s list of contexts by a bounded matrix')
     run.floor = 40
+    from . import attrobl
+    import contracts.frames as _fr
+    attrobl.frame_obligations(run, _fr.LEXER_STATE)
     for f in ('calmjs.parse.lexers.es5', 'calmjs.parse.parsers.es5'):
         run.function(f, scratch.sha256_file(scratch.module_path(f))[:16])
     from ..e1run import verify_functions
